@@ -11,6 +11,7 @@ thread and the worker's main thread, for histories of any length and any outcome
 import ExecnetVerif.Proofs.GateSteps
 import ExecnetVerif.Proofs.PoolMto
 import ExecnetVerif.Generated.Tables
+import ExecnetVerif.Model.ExecChoice
 namespace ExecnetVerif
 open Gate
 
@@ -241,5 +242,40 @@ theorem C14_untimely_counterexample :
 example : ∃ s, runSteps newGate init [.submit, .rTake, .rWake, .rClear, .rSpawn, .mStart, .submit, .rTake] = some s ∧
     s.r = .waiting 1 ∧ s.m = .running 0 ∧ s.seqOk 1 = false ∧ (step newGate s .rTimeout).isSome = true :=
   ⟨_, rfl, rfl, rfl, rfl, rfl⟩
+
+/-! ### which workers are `main_thread_only` workers (`Model/ExecChoice.lean`) -/
+
+/-- where `makegateway` takes the model of a spec that names none (the group's REMOTE default) and what `set_execmodel`
+stores, read off `Group.makegateway` / `Group.set_execmodel` by the translator -/
+theorem C14_execmodel_source_pinned :
+    ExecChoice.codeSrc = .remoteDefault ∧
+    Generated.setExecmodelSteps = [(0, "if self._gateways"), (1, "raise ValueError"), (0, "if remote_execmodel is None"),
+      (1, "remote_execmodel = execmodel"), (0, "self._execmodel = get_execmodel(execmodel)"),
+      (0, "self._remote_execmodel = get_execmodel(remote_execmodel)")] := by
+  decide
+
+/-- **C14 (who is a main_thread_only worker).** For every configuration `set_execmodel(e, r)` and every spec: the worker runs
+with the model the spec names; a spec that names none gets `r`, and `e` when `r` was not given.  In particular the local model
+never decides when a remote model was given. -/
+theorem C14_worker_model (e : ExecChoice.Backend) (r spec : Option ExecChoice.Backend) :
+    ExecChoice.workerModel ExecChoice.codeSrc (ExecChoice.setExecmodel e r) spec =
+      some (match spec, r with
+            | some b, _ => b
+            | none, some b => b
+            | none, none => e) := by
+  rw [C14_execmodel_source_pinned.1]
+  cases spec <;> cases r <;> rfl
+
+/-- a group configured with `set_execmodel(local, "main_thread_only")` starts `main_thread_only` workers for every spec that
+does not ask for something else, whatever the local model is — these are the workers `C14_main_thread` … speak about -/
+theorem C14_configured_by_group (e : ExecChoice.Backend) :
+    ExecChoice.workerModel ExecChoice.codeSrc (ExecChoice.setExecmodel e (some .mainThreadOnly)) none = some .mainThreadOnly := by
+  rw [C14_execmodel_source_pinned.1]; rfl
+
+/-- taking the default from the LOCAL model instead (seeded change C14-8): `set_execmodel("thread", "main_thread_only")`
+silently starts a `thread` worker -/
+theorem C14_local_default_counterexample :
+    ExecChoice.workerModel .localDefault (ExecChoice.setExecmodel .thread (some .mainThreadOnly)) none = some .thread := by
+  decide
 
 end ExecnetVerif
